@@ -42,6 +42,9 @@ theorem hoare_logProbe (A) (id : Nat) (m : Mode) (h : (id, m) ∈ A) :
     Hoare (LogOK A) (M.logEv (.probe id m)) :=
   ⟨fun _ => ⟨[.probe id m], rfl, by simp [probesOf, h]⟩⟩
 
+theorem hoare_logRead (A) (id : Nat) (r : Except Err V) : Hoare (LogOK A) (M.logEv (.read id r)) :=
+  ⟨fun _ => ⟨[.read id r], rfl, by simp [probesOf]⟩⟩
+
 theorem hoare_setGvars (A) (g) : Hoare (LogOK A) (M.setGvars g) :=
   ⟨fun _ => ⟨[], by simp [M.setGvars], by simp [probesOf]⟩⟩
 
@@ -54,6 +57,7 @@ macro "hstep" : tactic => `(tactic| first
   | exact Hoare.getGvars (logOK_rel _)
   | exact hoare_setGvars _ _
   | exact hoare_logCall _ _ _
+  | exact hoare_logRead _ _ _
   | assumption
   | apply Hoare.attempt
   | apply Hoare.bind (logOK_rel _)
@@ -65,6 +69,14 @@ macro "hauto" : tactic => `(tactic| repeat hstep)
 theorem callFn_ok (A) (p : Prims) (n k : String) (as : List V) (kw : List (String × V)) :
     Hoare (LogOK A) (callFn p n k as kw) := by
   unfold callFn; hauto
+
+theorem callValue_ok (A) (p : Prims) (f : V) (as : List V) (kw : List (String × V)) :
+    Hoare (LogOK A) (callValue p f as kw) := by
+  unfold callValue
+  split
+  · exact callFn_ok ..
+  · split <;> hauto
+  · hauto
 
 theorem callOpt_ok (A) (p : Prims) (cb : Option (String × String)) : Hoare (LogOK A) (callOpt p cb) := by
   unfold callOpt
@@ -232,9 +244,12 @@ theorem coalesceLoop_ok {p : Prims} {rec : Rec σ} {m A P} (hrec : StepOK rec m 
     · split
       · exact hrest
       · hauto
-    · apply Hoare.bind (logOK_rel _) (skipFunc_ok ..)
+    · apply Hoare.bind (logOK_rel _) (Hoare.attempt (skipFunc_ok ..))
       intro b
       split
+      · split
+        · exact hrest
+        · hauto
       · exact hrest
       · hauto
 
